@@ -518,6 +518,16 @@ fn dump_fn<'tcx>(
     o.set("expn", J::Arr(expn_chain(tcx.def_span(did)).into_iter().map(J::Str).collect()));
     if matches!(kind, DefKind::Closure) {
         o.set("parent", jstr(tcx.def_path_str(tcx.typeck_root_def_id(did))));
+        o.set("iparent", jstr(tcx.def_path_str(tcx.parent(did))));
+        let mut ups = Vec::new();
+        for cap in tcx.closure_captures(ldid) {
+            let mut u = J::obj();
+            u.set("name", jstr(cap.to_symbol()));
+            u.set("by_ref", J::Bool(cap.is_by_ref()));
+            u.set("place", jstr(format!("{:?}", cap.place.projections.iter().map(|p| format!("{:?}", p.kind)).collect::<Vec<_>>())));
+            ups.push(u);
+        }
+        o.set("upvars", J::Arr(ups));
     }
     if matches!(kind, DefKind::Fn | DefKind::AssocFn) {
         let sig = tcx.fn_sig(did).instantiate_identity().skip_norm_wip();
